@@ -848,6 +848,8 @@ def check_range(run, mods, rnd, wd, hist, distinct):
 # ---- simplify_boolean_expressions_symmath: translation validation ---------------------------------
 # formula terms: ("name", v) | ("cmp", v, op, c, flipped) | ("opq", i) | ("const", b) | ("not", f)
 #                | ("and", [f..]) | ("or", [f..])         (v indexes SVARS, op is a key of BOP_TXT)
+#                | ("chain", v, op1, c1, op2, c2)         the chained comparison `c1 op1 v op2 c2`: ONE atom to the rule
+#                  (its text), the conjunction `c1 op1 v and v op2 c2` of two boolean atoms to the checker (sf_coq)
 SVARS = ["x", "y", "z"]
 SBOX = range(-3, 6)          # strictly contains every constant used below ([-1, 3])
 
@@ -861,10 +863,13 @@ def sf_text(f, top=True) -> str:
         return f"{c} {BOP_TXT[op]} {SVARS[v]}" if fl else f"{SVARS[v]} {BOP_TXT[op]} {c}"
     if k == "opq":
         return f"o{f[1]}()"
+    if k == "chain":
+        _, v, o1, c1, o2, c2 = f
+        return f"{c1} {BOP_TXT[o1]} {SVARS[v]} {BOP_TXT[o2]} {c2}"
     if k == "const":
         return "True" if f[1] else "False"
     if k == "not":
-        return f"not {sf_text(f[1], False)}"
+        return f"not {sf_text(f[1], False)}" if f[1][0] != "chain" else f"not ({sf_text(f[1])})"
     s = f" {k} ".join(sf_text(v, False) for v in f[1])
     return s if top else f"({s})"
 
@@ -877,6 +882,9 @@ def sf_coq(f) -> str:
         return f"(PAtom (ACmp {f[1]} {f[2]} {gz(f[3])} {gbool(f[4])}))"
     if k == "opq":
         return f"(PAtom (AOpq {f[1]}))"
+    if k == "chain":
+        _, v, o1, c1, o2, c2 = f
+        return f"(PAnd (PAtom (ACmp {v} {o1} {gz(c1)} true)) (PAtom (ACmp {v} {o2} {gz(c2)} false)))"
     if k == "const":
         return f"(PConst {gbool(f[1])})"
     if k == "not":
@@ -920,6 +928,10 @@ def sf_of_ast(n) -> tuple:
             return ("cmp", SVARS.index(l.id), _AST_BOP[type(n.ops[0])], _int_const(r), False)
         if isinstance(r, ast.Name) and r.id in SVARS and _int_const(l) is not None:
             return ("cmp", SVARS.index(r.id), _AST_BOP[type(n.ops[0])], _int_const(l), True)
+    if isinstance(n, ast.Compare) and len(n.ops) == 2 and all(type(o) in _AST_BOP for o in n.ops):
+        l, m, r = n.left, n.comparators[0], n.comparators[1]
+        if isinstance(m, ast.Name) and m.id in SVARS and _int_const(l) is not None and _int_const(r) is not None:
+            return ("chain", SVARS.index(m.id), _AST_BOP[type(n.ops[0])], _int_const(l), _AST_BOP[type(n.ops[1])], _int_const(r))
     raise ValueError("outside the formula language: " + ast.dump(n))
 
 
@@ -959,7 +971,7 @@ SYM_SHAPES = {          # how the formula is embedded; True = only its truth val
 def sf_vars_used(f, acc=None):
     """(variables compared with constants, variables used as bare operands, opaque calls)"""
     acc = acc if acc is not None else (set(), set(), set())
-    if f[0] == "cmp":
+    if f[0] in ("cmp", "chain"):
         acc[0].add(f[1])
     elif f[0] == "name":
         acc[1].add(f[1])
@@ -1016,6 +1028,8 @@ SYM_POOLS = {
     "names": [("name", 0), ("name", 1), ("name", 2)],
     "cmps": [("cmp", 0, "BGt", 1, False), ("cmp", 0, "BLe", 1, False), ("cmp", 0, "BEq", 2, False)],
     "mixed": [("name", 0), ("cmp", 0, "BGt", 0, False), ("opq", 0)],
+    # round 5: chained comparisons are atoms of the rule, related to the bounds on the same variable only semantically
+    "chains": [("chain", 0, "BLt", 0, "BLt", 3), ("cmp", 0, "BGt", 1, False), ("chain", 0, "BLe", 1, "BLe", 2)],
 }
 
 
@@ -1023,8 +1037,10 @@ def sym_atom(rnd):
     k = rnd.random()
     if k < 0.35:
         return ("name", rnd.randrange(3))
-    if k < 0.8:
+    if k < 0.72:
         return ("cmp", rnd.choice([0, 0, 1]), rnd.choice(BOPS), rnd.choice([-1, 0, 1, 2, 3]), rnd.random() < 0.2)
+    if k < 0.8:
+        return ("chain", rnd.choice([0, 0, 1]), rnd.choice(BOPS), rnd.choice([-1, 0, 1]), rnd.choice(BOPS), rnd.choice([1, 2, 3]))
     if k < 0.93:
         return ("opq", rnd.randrange(2))
     return ("const", rnd.random() < 0.5)
@@ -1047,8 +1063,8 @@ def sym_cases(tier, rnd):
     k = 0
     for pool, atoms in SYM_POOLS.items():
         shapes = {"names": ["if", "if", "not", "assign"], "cmps": ["assign", "if", "return", "ifexp"],
-                  "mixed": ["if", "assign", "comp", "call"]}[pool]
-        for n in (2, 3, 4):
+                  "mixed": ["if", "assign", "comp", "call"], "chains": ["if", "assign", "not", "return"]}[pool]
+        for n in ((2, 3, 4) if pool != "chains" or tier != "quick" else (2, 3)):
             for f in sym_leaf_forms(n, atoms):
                 k += 1
                 if n < 4 or k % stride4 == 0:
